@@ -396,6 +396,20 @@ def run(rep: Report, tier: str) -> None:
 				verbatim = isinstance(body, ast.Subscript) and isinstance(body.slice, ast.Slice) and unparse(body.slice) == '1:-1'
 				if not verbatim:
 					r4.ok(f'concat:requoted:{unparse(body)[:30]}', (EVAL, js.lineno))
+					# the converter itself: whether a quote character in the body is escaped depends on the backslashes before it, so the conversion has
+					# to walk the text and treat `\\x` as a unit. Global str.replace passes are context-free: replacing every `"` by `\\"` doubles the
+					# backslash of a quote that was already escaped (`'a\\"b'` -> `"a\\\\"b"`: the literal ends after the backslash)
+					conv = c.method(body.func.attr) if isinstance(body, ast.Call) and isinstance(body.func, ast.Attribute) and isinstance(body.func.value, ast.Name) and body.func.value.id in ('self', 'cls') else None
+					if conv is not None:
+						reps = [n for n in ast.walk(conv.node) if isinstance(n, ast.Call) and isinstance(n.func, ast.Attribute) and n.func.attr == 'replace' and len(n.args) >= 2 and any(isinstance(x, ast.Constant) and isinstance(x.value, str) and '\\' in x.value for a in n.args[:2] for x in ast.walk(a))]
+						scans = [n for n in ast.walk(conv.node) if isinstance(n, ast.Compare) and any(isinstance(x, ast.Constant) and x.value == '\\' for x in [n.left, *n.comparators]) and any(isinstance(x, ast.Subscript) for x in [n.left, *n.comparators])]
+						key = f'concat:converter-escape-aware:{conv.name}'
+						if reps:
+							r4.violate(key, (EVAL, reps[0].lineno), f'{conv.qualname} re-escapes the body with `{unparse(reps[0])[:90]}`, a replace over the whole text: a quote that is already escaped gets a second backslash (`"x" + \'a\\"b\'` folds to `"xa\\\\"b"`, a literal that ends after the backslash), and an escaped backslash followed by a quote is mistaken for an escaped quote; the value differs from CPython\'s and is not refused', unparse(reps[0]))
+						elif scans:
+							r4.ok(key, (EVAL, scans[0].lineno))
+						else:
+							r4.skip(key, conv.where, f'{conv.qualname} neither walks the body testing for the backslash nor uses str.replace')
 					continue
 				x = unparse(body.value)
 				same = x == owner or any(p_ and isinstance(a, ast.Compare) and len(a.ops) == 1 and isinstance(a.ops[0], ast.Eq) and {unparse(a.left), unparse(a.comparators[0])} == {f'{x}[0]', unparse(delim)} for a, p_ in atoms(cx, js))
